@@ -366,14 +366,17 @@ def restore (cfg : Cfg) (sv : Saved) (t : State) : State × Option Err :=
 
 inductive Cmd where
   | op (o : Op)
-  | enter    -- `ctx = reset_pyparsing_context(); ctx.__enter__()`
-  | exit     -- innermost open context `.__exit__()`
+  | enter (reuse : Bool)   -- `ctx.__enter__()` on a new `reset_pyparsing_context()`; `reuse`: on the most
+                           -- recently exited context *object* instead (its saved context is overwritten)
+  | exit (viaCopy : Bool)  -- innermost open context: `ctx.__exit__()`; `viaCopy`: `ctx.copy().restore()`
+  | restoreLast            -- `.restore()` once more on the most recently exited context object
   deriving DecidableEq, Repr, Inhabited
 
 structure Mach where
   st : State
   stack : List Saved
   ctxErr : Bool      -- did any `__enter__` / `__exit__` raise so far
+  last : Option Saved  -- `_save_context` of the most recently exited context object (if not re-entered since)
   deriving DecidableEq, Repr, Inhabited
 
 /-- one command; second component: the exception it raised, if any -/
@@ -382,15 +385,23 @@ def stepCmd (cfg : Cfg) (c : Cmd) (m : Mach) : Mach × Option Err :=
   | .op o =>
     let r := stepOp cfg o m.st
     ({ m with st := r.1 }, r.2)
-  | .enter =>
+  | .enter reuse =>
+    -- `save()` assigns every key of `_save_context`, so a re-used object behaves like a new one
     if saveRaises m.st then ({ m with ctxErr := true }, some .attribute)
-    else ({ m with stack := save cfg m.st :: m.stack }, none)
-  | .exit =>
+    else ({ m with stack := save cfg m.st :: m.stack, last := if reuse then none else m.last }, none)
+  | .exit _ =>
+    -- `copy()` (testing.py:126-129) copies `_save_context`, so restoring through the copy is the same
     match m.stack with
     | [] => (m, none)
     | sv :: rest =>
       let r := restore cfg sv m.st
-      ({ st := r.1, stack := rest, ctxErr := m.ctxErr || r.2.isSome }, r.2)
+      ({ st := r.1, stack := rest, ctxErr := m.ctxErr || r.2.isSome, last := some sv }, r.2)
+  | .restoreLast =>
+    match m.last with
+    | none => (m, none)
+    | some sv =>
+      let r := restore cfg sv m.st
+      ({ m with st := r.1, ctxErr := m.ctxErr || r.2.isSome }, r.2)
 
 def run (cfg : Cfg) : List Cmd → Mach → Mach
   | [], m => m
